@@ -27,6 +27,7 @@ type Act struct {
 type C14Case struct {
 	Acts      []Act  `json:"acts"`
 	Exit      int    `json:"exit"`
+	Signal    int    `json:"signal"`     // if non-zero the child ends by sending itself this signal instead of exiting
 	Stdin     int    `json:"stdin"`      // bytes of position-coded digits fed to the child (only with an i action)
 	ReadBuf   int    `json:"read_buf"`   // consumer buffer size
 	PauseUS   int    `json:"pause_us"`   // pause after every read
@@ -47,6 +48,7 @@ for my $a (@ARGV) {
   elsif ($a eq "i")        { my $b; while(sysread(STDIN,$b,4096)){ wr(\*STDOUT,$b) } }
   elsif ($a =~ /^s(\d+)$/) { select(undef,undef,undef,$1/1000) }
   elsif ($a =~ /^x(\d+)$/) { exit $1 }
+  elsif ($a =~ /^k(\d+)$/) { kill $1, $$; select(undef,undef,undef,5); exit 0 }
 }`
 
 func seq(base byte, n int) []byte {
@@ -78,6 +80,9 @@ func runC14(c C14Case) c14Result {
 		default:
 			args = append(args, fmt.Sprintf("%s%d", a.Op, a.N))
 		}
+	}
+	if c.Signal != 0 {
+		args = append(args, fmt.Sprintf("k%d", c.Signal))
 	}
 	args = append(args, fmt.Sprintf("x%d", c.Exit))
 	cmd := exec.Command("perl", args...)
@@ -185,7 +190,11 @@ func checkC14(c C14Case) (key, what string, res c14Result) {
 	if len(res.got) != len(gotOut)+len(gotErr)+len(gotIn) {
 		return "extra-bytes", fmt.Sprintf("%d bytes on the stream that the child never wrote", len(res.got)-len(gotOut)-len(gotErr)-len(gotIn)), res
 	}
-	if (res.goErr == nil) != (c.Exit == 0) {
+	if c.Signal != 0 {
+		if res.goErr == nil {
+			return "exit-status", fmt.Sprintf("child was terminated by signal %d but Go returned nil", c.Signal), res
+		}
+	} else if (res.goErr == nil) != (c.Exit == 0) {
 		return "exit-status", fmt.Sprintf("child exited %d but Go returned %v", c.Exit, res.goErr), res
 	}
 	return "", "", res
@@ -242,6 +251,9 @@ func genC14() *rapid.Generator[C14Case] {
 			c.Stdin = rapid.SampledFrom([]int{0, 1, 100, 5000, 70000, 200000}).Draw(t, "stdin")
 		}
 		c.Exit = rapid.SampledFrom([]int{0, 0, 0, 1, 2, 42, 255}).Draw(t, "exit")
+		if rapid.IntRange(0, 7).Draw(t, "signalled") == 0 {
+			c.Signal = rapid.SampledFrom([]int{9, 15, 6, 1}).Draw(t, "signal") // KILL TERM ABRT HUP
+		}
 		c.ReadBuf = rapid.SampledFrom([]int{1, 7, 512, 4096, 4096, 32768, 65536}).Draw(t, "readbuf")
 		c.PauseUS = rapid.SampledFrom([]int{0, 0, 100, 1000, 2000, 20000}).Draw(t, "pause")
 		total := 0
@@ -295,6 +307,9 @@ func c14Classes(c C14Case, r c14Result) []string {
 	}
 	if c.Exit != 0 {
 		cl = append(cl, "nonzero-exit")
+	}
+	if c.Signal != 0 {
+		cl = append(cl, "killed-by-signal")
 	}
 	if c.PauseUS > 0 || c.StallAt >= 0 || c.StartLate > 0 {
 		cl = append(cl, "lagging-consumer")
